@@ -1154,6 +1154,8 @@ class DAG(nx.DiGraph):
             bn = self
         else:
             bn = BayesianNetwork(self.edges())
+            # Nodes without any edge are part of the model too.
+            bn.add_nodes_from(self.nodes())
 
         if estimator is None:
             estimator = MaximumLikelihoodEstimator
